@@ -8,14 +8,19 @@ package sym
 // finishes; threads are then run round-robin to completion or until they block. With schedule
 // nondeterminism on (verifrt.ScheduleND), every voluntary yield point forks over the next thread.
 
-import "fmt"
+import (
+	"fmt"
+	"go/types"
+)
 
 type thread struct {
+	harness   bool // started with verifrt.Go
 	id        int
 	resume    chan bool // true: run; false: the path is over, unwind
 	done      bool
 	callDepth []string
 	blockedOn string
+	cond      func() bool // what the thread is waiting for while blockedOn != ""
 }
 
 type threadKilled struct{}
@@ -27,7 +32,7 @@ func (i *interpreter) initThreads() {
 }
 
 // spawn registers a new interpreted goroutine; it starts running when first scheduled.
-func (i *interpreter) spawn(body func()) {
+func (i *interpreter) spawn(body func()) *thread {
 	t := &thread{id: len(i.threads), resume: make(chan bool, 1)}
 	i.threads = append(i.threads, t)
 	go func() {
@@ -57,6 +62,7 @@ func (i *interpreter) spawn(body func()) {
 		i.progress++
 		i.switchFrom(t, true)
 	}()
+	return t
 }
 
 // liveOthers returns the live threads other than t, starting after t (round robin).
@@ -123,6 +129,7 @@ func (i *interpreter) blockUntil(cond func() bool, why string) {
 	epoch := i.progress
 	for !cond() {
 		me.blockedOn = why
+		me.cond = cond
 		if !i.switchFrom(me, false) {
 			// nobody else can run
 			i.deadlock(me, why)
@@ -139,7 +146,13 @@ func (i *interpreter) blockUntil(cond func() bool, why string) {
 		}
 	}
 	me.blockedOn = ""
+	me.cond = nil
 	i.progress++
+}
+
+// runnable: not finished and not waiting for something that is still false.
+func (t *thread) runnable() bool {
+	return !t.done && (t.blockedOn == "" || t.cond == nil || t.cond())
 }
 
 func (i *interpreter) deadlock(me *thread, why string) {
@@ -159,7 +172,7 @@ func (i *interpreter) deadlock(me *thread, why string) {
 		}
 	}
 	if i.deadlockIsEvent {
-		panic(targetPanic{iface{t: nil, v: "verif: deadlock - all goroutines are blocked (" + why + ")"}})
+		panic(targetPanic{iface{t: types.Typ[types.String], v: "verif: deadlock - all goroutines are blocked (" + why + ")"}})
 	}
 	panic(abortPath{why: "main thread blocks forever: " + why, kind: "unsupported"})
 }
@@ -220,9 +233,118 @@ func (i *interpreter) blocked(why string) {
 	panic(fmt.Sprintf("internal: blocked(%s) called", why))
 }
 
+type muState struct {
+	writer  bool
+	readers int
+}
+
+func (i *interpreter) mutex(p *value) *muState {
+	if i.mu == nil {
+		i.mu = map[*value]*muState{}
+	}
+	m := i.mu[p]
+	if m == nil {
+		m = &muState{}
+		i.mu[p] = m
+	}
+	return m
+}
+
 func (i *interpreter) wgCount() map[*value]int {
 	if i.wg == nil {
 		i.wg = map[*value]int{}
 	}
 	return i.wg
+}
+
+// allOthersParked: every other live thread is a server-side goroutine that is blocked for good
+// (e.g. a ticker loop); harness threads are expected to finish.
+func (i *interpreter) allOthersParked(me *thread) bool {
+	for _, t := range i.liveOthers(me) {
+		if !t.harness {
+			continue
+		}
+		return false
+	}
+	return true
+}
+
+// schedPoint is a point where the scheduler may hand control to another harness thread; the
+// choice is a named input (c_sched_<k>), so that a counterexample carries its schedule.
+// atLock: the point is a mutex acquisition (counted against the pre-emption bound).
+func (i *interpreter) schedPoint(atLock bool) {
+	e := i.ex
+	if e == nil || i.inSchedPoint {
+		return
+	}
+	if atLock && (!i.preemptLocks || i.preemptLeft <= 0) {
+		return
+	}
+	hasHarness := false
+	for _, t := range i.threads {
+		if t.harness {
+			hasHarness = true
+		}
+	}
+	if !hasHarness || !(i.cur.harness || i.cur.id == 0) {
+		return
+	}
+	var others []*thread
+	for _, t := range i.liveOthers(i.cur) {
+		if (t.harness || t.id == 0) && t.runnable() {
+			others = append(others, t)
+		}
+	}
+	if len(others) == 0 {
+		return
+	}
+	name := fmt.Sprintf("c_sched_%d", e.schedPoints)
+	e.schedPoints++
+	if e.schedPoints > 60 {
+		panic(abortPath{why: "more than 60 scheduling points on one path", kind: "budget"})
+	}
+	e.declare(name, "(_ BitVec 64)")
+	e.addPC("(bvult " + name + " " + bvConst(2, 64) + ")")
+	i.inSchedPoint = true
+	d := e.concretize(symBV{name, 64}, 0, 2)
+	i.inSchedPoint = false
+	if d == 1 {
+		if atLock {
+			i.preemptLeft--
+		}
+		i.switchTo(i.cur, others[0], false)
+	}
+}
+
+// spinCheck: a thread that keeps loading the same atomic word while nothing else changes is
+// busy-waiting. A real scheduler pre-empts it; here the other harness threads get to run, and if
+// none of them can, the wait can never end and is reported like a deadlock.
+func (i *interpreter) spinCheck(p *value) {
+	hasHarness := false
+	for _, t := range i.threads {
+		if t.harness {
+			hasHarness = true
+		}
+	}
+	if !hasHarness {
+		return
+	}
+	if i.spinThread != i.cur || i.spinEpoch != i.progress || i.spinLoads == nil {
+		i.spinThread, i.spinEpoch, i.spinLoads = i.cur, i.progress, map[*value]int{}
+	}
+	i.spinLoads[p]++
+	i.spinCount = i.spinLoads[p]
+	if i.spinCount < 3 {
+		return
+	}
+	me := i.cur
+	for _, t := range i.liveOthers(me) {
+		if (t.harness || t.id == 0) && t.runnable() {
+			i.switchTo(me, t, false)
+			return
+		}
+	}
+	if i.spinCount > 64 {
+		i.deadlock(me, "busy-wait on an atomic word that no runnable thread can change")
+	}
 }
